@@ -300,7 +300,7 @@ Definition xl_value (E : env) (e : expr) : res pyval := finish (xleval E e).
    without a superfluous leading zero, complete text tokens, TRUE / FALSE,
    error constants free of quotes and backslashes (all of Excel's are);
    no function whose Python name is _REF_ (is_addr_and would see it) *)
-Definition operand_ok (k : okind) (v : list Z) : bool :=
+Definition literal_ok (k : okind) (v : list Z) : bool :=
   match k with
   | KNumber => match xl_number v with Some _ => zeros_ok v | None => false end
   | KText => match xl_unquote v with Some _ => true | None => false end
@@ -312,7 +312,7 @@ Definition operand_ok (k : okind) (v : list Z) : bool :=
 
 Fixpoint lit_ok (e : expr) : Prop :=
   match e with
-  | EOperand k v => operand_ok k v = true
+  | EOperand k v => literal_ok k v = true
   | EPre a | EPost a => lit_ok a
   | EBin _ l r => lit_ok l /\ lit_ok r
   | EFunc name args =>
@@ -326,7 +326,7 @@ Definition is_some {A} (o : option A) : bool := match o with Some _ => true | No
 Fixpoint evalb (e : expr) : bool :=
   match e with
   | EOperand k v =>
-      operand_ok k v && match k with KRange => ref_modelled v | _ => true end
+      literal_ok k v && match k with KRange => ref_modelled v | _ => true end
   | EPre a | EPost a => evalb a
   | EBin o l r => is_some (pyop_of o) && evalb l && evalb r
   | EFunc name args =>
